@@ -418,7 +418,7 @@ func (x *Exec) applyContract(fr *frame, st *State, fc *FuncContract, sig *types.
 	p := x.pos(pos)
 	vars := map[string]Val{}
 	for i, n := range names {
-		if args[i].Loc != nil && args[i].Typ != nil && isBigIntPtr(args[i].Typ) {
+		if args[i].Loc != nil && args[i].Typ != nil && (isBigIntPtr(args[i].Typ) || fc.Opts["abs-args"] != "") {
 			// a pointer to a big.Int embedded by value (x.f.Int), passed to a math/big method known
 			// by its contract only: the abstract reference big() is keyed by
 			if pt, ok := vc.absPtr(args[i].Loc); ok {
